@@ -835,6 +835,9 @@ class Interp:
                     yield from self.binop(node, op, a1, b1, st2)
             return
         num = (SInt, SBool)
+        if isinstance(a, SBool) and isinstance(b, SBool) and isinstance(op, (ast.BitOr, ast.BitAnd)):
+            yield st, SBool(z3.Or(a.e, b.e) if isinstance(op, ast.BitOr) else z3.And(a.e, b.e))
+            return
         if isinstance(a, num) and isinstance(b, num):
             x, y = self.as_int(a), self.as_int(b)
             if isinstance(op, ast.Add):
